@@ -604,7 +604,32 @@ def directed_cases(ctx):
                 got = f"{type(e).__name__}: {e}"
             if got != want:
                 ctx.violation("alias_view", f"[{host_kind} class; y, z (x10), w (fallback) alias x = 1] {label}: {got!r}, expected {want!r}", features=feats, case=["directed_sibling_none", host_kind, label])
-    ctx.sig("directed", "paths", "collection_alias", "transform_error", "siblings_none")
+    # (6) a target declared without a default (Attr() / dataclasses.field()) is a *missing* target until it is assigned
+    ns3 = cg_exec(NODEFAULT_SRC)
+    for cname in ("ByAttr", "ByField", "Bare"):
+        ctx.count("ops_judged")
+        ctx.count("directed_missing_target_cases")
+        feats = {"shape": "directed_missing_target", "op": "ra", "host": "spec", "declared": cname}
+        h = ns3[cname]()
+
+        def rd(name):
+            try:
+                return getattr(h, name)
+            except AttributeError:
+                return "AttributeError"
+            except Exception as e:
+                return type(e).__name__
+
+        seen = [(rd("fb"), rd("plain"))]
+        h.x = 3
+        seen.append((rd("fb"), rd("plain")))
+        del h.x
+        seen.append((rd("fb"), rd("plain")))
+        want = [(7, "AttributeError"), (3, 3), (7, "AttributeError")]
+        if [(safe_repr(a, 30), safe_repr(b, 30)) for a, b in seen] != [(safe_repr(a, 30), safe_repr(b, 30)) for a, b in want]:
+            ctx.violation("alias_view", f"[{cname}: x declared without a default; fb = Alias('x', fallback=7), plain = Alias('x')] (fb, plain) read before x is set / with x = 3 / after del x: {[(safe_repr(a, 30), safe_repr(b, 30)) for a, b in seen]}, expected {want}",
+                          features=feats, case=["directed_missing_target", cname])
+    ctx.sig("directed", "paths", "collection_alias", "transform_error", "siblings_none", "missing_target")
 
 
 SIBLING_SRC = """
@@ -617,6 +642,30 @@ class SpecHost:
     y: Optional[int] = Alias("x")
     z: Optional[int] = Alias("x", transform=lambda v: v * 10)
     w: Optional[int] = Alias("x", fallback=-1)
+"""
+
+
+NODEFAULT_SRC = """
+from dataclasses import field
+from spec_classes import spec_class, Alias, Attr
+
+@spec_class(bootstrap=True)
+class ByAttr:
+    x: int = Attr()
+    fb: int = Alias("x", fallback=7)
+    plain: int = Alias("x")
+
+@spec_class(bootstrap=True)
+class ByField:
+    x: int = field()
+    fb: int = Alias("x", fallback=7)
+    plain: int = Alias("x")
+
+@spec_class(bootstrap=True)
+class Bare:
+    x: int
+    fb: int = Alias("x", fallback=7)
+    plain: int = Alias("x")
 """
 
 
